@@ -17,16 +17,16 @@ RULE = ("subnet sets (<= 12 per map: seeds with nested / adjacent / same-network
         "address, family 0); one case per (input, client, backend). non-trivial = distinct (subnet set, maps, "
         "client, backend) whose spec answer is a location or whose client lies on a block boundary")
 TRUSTED_BASE = [
-    "sort.Slice enters Model/Rearranger.v as a Section variable (any function returning a permutation sorted w.r.t. the comparator); cases are evaluated with insertion sort, which Proofs/Rearranger.v shows to be one such function",
-    "RocksDB (SeekForPrev = greatest key <= search key in bytewise order, Get, multi-value header), the CDB file format and hash, the compilers' pipelines (parallel workers, builder, SST ingest) are below the modelled interface: a database is a list of (key, stored value); the harness reads the real databases through db.Reader only",
+    "sort.Slice enters Model/Rearranger.v as a Section variable: the theorems hold for every function that returns a permutation sorted w.r.t. the comparator (sort_spec; sort.Slice is not stable); cases are evaluated with insertion sort, which C03_sort_spec_satisfiable shows to be one such function",
+    "RocksDB (SeekForPrev = greatest key <= search key in bytewise order, Get, multi-value header), the CDB file format and hash, the compilers' pipelines (parallel workers, builder, SST ingest) are below the modelled interface: a database is a list of (key, stored value). For CDB the theorems start from the data file (cdb_db f); for RocksDB they start from a database whose range-point / map records are exactly those derived from Rearrange / the declarations (hypotheses of C03_rdb_driver_is_lpm, C03_map_choice_v1/v2) - that the compiler stores exactly these records is checked by the correspondence run only (model rdb_db vs the real databases)",
     "net.ParseIP / ParseCIDR / IP.Mask / CIDRMask and miekg EDNS0_SUBNET unpack are modelled by their effect on 16-byte addresses (v4 is v6-mapped); the harness builds the ECS option from wire bytes through dns.Msg.Unpack",
     "names are packed lower-case wire names of at most 255 bytes (the byte-typed index arithmetic of reverseZoneName / getLengthWithoutLastLabel is not modelled beyond that)",
     "per-family CDB mode: the harness re-executes itself with FBDNS_SEPARATE_MASKLENS=1 for the CDB part",
 ]
 ASSUMPTIONS = [
-    "wf_subnets: every subnet has length <= 128, a network address with no host bits, no subnet is declared twice, and no IPv6 subnet other than ::/0 overlaps ::ffff:0:0/96 (known finding F20 for ::/N, 1 <= N <= 79)",
-    "client address masked to its prefix length for the RocksDB theorem (the drivers mask it themselves; cases with host bits are run as a separate class)",
-    "map declarations: packed names with labels of 1..63 bytes, each (kind, name, wildcard) declared once",
+    "wf_subnets (decidable, Proofs/Location.v): every subnet has length <= 128, a network address < 2^128 without host bits, no (address, length) is declared twice, and no IPv6 subnet of length 1..95 contains ::ffff:0:0 (known finding F20; C03_rdb_is_lpm_refuted_inside/_outside)",
+    "the client address is masked to its prefix length in C03_rdb_is_lpm (range-point level); C03_rdb_driver_is_lpm and C03_cdb_is_lpm take the client as the callers build it (128-bit mask, or 32-bit mask on a v4-mapped address) and show that the drivers mask it",
+    "map declarations: labels of at least one byte, each (kind, name, wildcard) declared with one map id; kinds 77 (M) and 56 (8)",
 ]
 
 BK = {"rr": "KRr", "cdb": "KCdb", "cdbsep": "KCdbSep", "v1": "KV1", "v2": "KV2"}
